@@ -265,6 +265,8 @@ def part_matrix(ctx, cfgs):
                 seen[key] += 1
                 continue
             seen[key] = 1
+            if len([k for k in seen if not ctx.is_known(k)]) > 6:
+                continue    # enough distinct unknown disagreements reported; the rest are counted in the evidence
             pos, rnd = it["group"][ci]
             single = build_one(mk, pos, rnd).p
             agree = [n for n in names if n not in differing]
